@@ -5,14 +5,14 @@ CONFIG = {
     "properties_files": ["theories/Client/Properties.v"],
     "required_theorems": [
         "one_executor", "report_honest", "idle_after_failure", "shutdown_never_solicits",
-        "terminate_only_when_safe", "client_trace_ok",
+        "terminate_only_when_safe", "client_trace_ok", "safe_shutdown", "late_cancel_prefers_idle",
         "observer_ok_all", "until_nil_means_idle", "until_none_nothing_running", "shutdown_keeps_synchronizing", "channel_bounded",
     ],
     "harnesses": [
         {"cmd": "client", "cases_quick": 400, "cases_thorough": 6000, "shards_quick": 8, "shards_thorough": 32, "race": True},
     ],
     "trusted_base": [
-        "hand-written model coq/theories/Client/Model.v of build_client.go (Run as one step; executor goroutine as a second thread with update/finish/close steps; 10-slot channel incl. a sender parked on a full buffer), tied by correspondence harness/cmd/client",
+        "hand-written model coq/theories/Client/Model.v of build_client.go (Run as one step with its two readings of ctx.Err() and a cancellation in between as an input; the context as a sticky flag; executor goroutine as a second thread with update/finish/close steps; 10-slot channel incl. a sender parked on a full buffer), tied by correspondence harness/cmd/client",
         "verif hook BuildClient.VerifState (read-only snapshot of schedulerMayThinkExecutingUntil, nextSynchronizationAt, executionCancellation != nil, PreferBeingIdle)",
         "constants: time.Minute grace and channel capacity 10 are read from build_client.go by the harness' go/ast extractor on every run (and cap(updates) at run time) and compared with Model.grace_ms / Model.chan_cap by Corr.v",
         "observer monitor Spec.obm: the scheduler-side bound is reconstructed from the Synchronize traffic (requests, replies, clock, timer-vs-update outcome of the select) and grace_ms, never from the client's fields; the field is only compared against it",
@@ -20,14 +20,14 @@ CONFIG = {
         "Go runtime semantics of buffered channels (a receive from a full buffer admits the parked sender's value in the same operation), select, context cancellation",
     ],
     "manifest": {
-        "level_text": "Theorems in Coq about an executable model of BuildClient.Run and its executor goroutine, for all sequences of scheduler replies, clock readings, readiness results, shutdown instants and all interleavings of executor progress/finish/close steps with Run (no bound on length); tied to the Go code by a differential correspondence check whose oracle is the proved model and whose monitor is the proved trace predicate.",
+        "level_text": "Theorems in Coq about an executable model of BuildClient.Run and its executor goroutine, for all sequences of scheduler replies, clock readings, readiness results, shutdown instants (between two Runs, or inside a Run between its two readings of the context) and all interleavings of executor progress/finish/close steps with Run (no bound on length); tied to the Go code by a differential correspondence check whose oracle is the proved model and whose monitor is the proved trace predicate.",
         "level_note": "Trusted: Coq kernel+VM, hand-written model (validated on generated histories against the real BuildClient), Go harness with goroutine controller, verif snapshot hook, Go channel/select semantics. Partial: LaunchWorkerThread's random back-off sleeps are not modelled; the window between 'updates <- Completed' and 'close(updates)' is covered by the theorems (separate XClose step) but not exercised on the implementation (the harness always lets both happen back to back).",
         "technique": "machine-checked proof in Coq (invariant relating model state and monitor ghost state, preserved by every step; trace predicate = run-time monitor) + model/implementation correspondence evaluated with vm_compute",
         "design_ref": "DESIGN.md §4 Worker/C08",
     },
     "assumptions": [
         "LaunchWorkerThread's random back-off sleeps and the Go scheduler's fairness are not modelled (partial)",
-        "shutdown is an input flag per Run; that a cancelled context stays cancelled is a property of context.Context, not proved",
+        "the context is modelled as a sticky flag (a cancelled context stays cancelled: property of context.Context, assumed); when it is cancelled is an input of each Run (before the Run / between the two readings of ctx.Err()); a cancellation while an idle worker whose scheduler-may-think-executing bound is set passes from the first to the second reading without blocking is covered by the theorems but cannot be provoked on the implementation (no blocking point to hook)",
         "the executor is honest about its own digest (updates carry the digest of the request it was given), as the protocol demands of BuildExecutor implementations",
     ],
 }
